@@ -991,6 +991,13 @@ func (c *Compiler) linkRecursiveCode(ctx *compileContext) {
 		curTotalLength := uintptr(recursive.TotalLength()) + 4
 		nextTotalLength := uintptr(totalLength) + 4
 
+		// an interface value inside the recursive program starts its frame behind this one
+		for c := code; !c.IsEnd(); c = c.IterNext() {
+			if c.Op == OpInterface || c.Op == OpInterfacePtr {
+				c.Length = uint32(totalLength) + 1
+			}
+		}
+
 		compiled := recursive.Jmp
 		compiled.Code = code
 		compiled.CurLen = curTotalLength
